@@ -20,6 +20,12 @@ Steps (JSON lists):
   ["append_expire", n]         append_data + expire_snapshots in one transaction
   ["delete_snapshot", k]       SnapshotManager.delete_snapshot(k-th snapshot)
   ["abort", [n1, ...]]         one transaction, one append_data per n, then Transaction.rollback()
+  ["threads", [[n, ..], ..], [[t, k], ..]]
+                               IN-PROCESS CONCURRENCY: one writer thread per list, all on the one table directory (each
+                               with its own load_table of it, one local backend class); thread t runs one transaction
+                               (append_data(n) + commit) per n.  The holds [t, k] are the schedule (ostrace.ThreadSched): the
+                               k-th directory fsync of thread t is slow -- parked between the kernel call and its return
+                               until another thread's rename into that directory has landed.  In-process tracer only.
 A step that raises is recorded as failed (ok=false) after the transaction was rolled back the way the
 context manager does, and the scenario continues with the next step.
 Every step is bracketed by marks "<i>:begin" / "<i>:end" in the trace; the result file lists, per
@@ -111,6 +117,57 @@ def _in_tx(table: Any, res: Dict[str, Any], body: Callable[[Any], None]) -> None
         raise
 
 
+def _run_threads(root: str, lists: List[List[int]], holds: List[List[int]], tracer: Any, res: Dict[str, Any], salt0: int) -> None:
+    import threading
+    from datashard import load_table
+    from harness.lib import ostrace
+    sched = ostrace.ThreadSched(len(lists), holds) if tracer is not None else None
+    if tracer is not None:
+        tracer.sched = sched
+    out: List[Dict[str, Any]] = [{"ok": True, "data_files": [], "commits": 0} for _ in lists]
+
+    def body(tid: int) -> None:
+        r = out[tid]
+        try:
+            if sched is not None:
+                sched.register(tid)
+                sched.wait_start(tid)
+            table = load_table(root)
+            for j, n in enumerate(lists[tid]):
+                tx = table.new_transaction().begin()
+                try:
+                    tx.append_data(records=_rows(n, salt0 + 100 * (tid + 1) + j), schema=None)
+                    r["data_files"] += list(tx._written_files)
+                    tx.commit()
+                    r["commits"] += 1
+                except BaseException:
+                    if tx.is_active():
+                        tx.rollback()
+                    raise
+        except BaseException as e:  # noqa: BLE001
+            r["ok"] = False
+            r["error"] = f"{type(e).__name__}: {e}"[:300]
+        finally:
+            if sched is not None:
+                sched.finished(tid)
+
+    ths = [threading.Thread(target=body, args=(k,), name=f"writer-{k}", daemon=True) for k in range(len(lists))]
+    try:
+        for t in ths:
+            t.start()
+        for t in ths:
+            t.join(60)
+    finally:
+        if tracer is not None:
+            tracer.sched = None
+    res["threads"] = out
+    res["schedule_log"] = sched.log if sched is not None else []
+    res["data_files"] = [f for r in out for f in r["data_files"]]
+    res["ok"] = all(r["ok"] for r in out) and not any(t.is_alive() for t in ths)
+    if any(t.is_alive() for t in ths):
+        res["error"] = "writer threads did not finish within 60 s"
+
+
 def run_steps(root: str, steps: List[Any], mark: Callable[[str], None], mutation: Optional[str] = None) -> List[Dict[str, Any]]:
     from datashard import create_table, load_table
     undo = install_mutation(mutation)
@@ -141,6 +198,9 @@ def run_steps(root: str, steps: List[Any], mark: Callable[[str], None], mutation
                     if kind == "append_records":
                         salt[0] += 1
                         res["ok"] = bool(table.append_records(_rows(st[1], salt[0])))
+                    elif kind == "threads":
+                        salt[0] += 1
+                        _run_threads(root, st[1], st[2] if len(st) > 2 else [], getattr(mark, "__self__", None), res, salt[0] * 1000)
                     elif kind == "append_pandas":
                         try:
                             import pandas as pd
